@@ -246,6 +246,10 @@ class Elf(BinFormat):
             self.__file.seek(off)
             base = addr
             bytes_ = self.__file.read(size)
+            if S.p_memsz > S.p_filesz:
+                # bss: bytes beyond the file-backed part read as zero (up to the page end of p_memsz)
+                n = ELF_PAGEOFFSET(S.p_vaddr)
+                bytes_ = bytes_[: n + S.p_filesz].ljust(ELF_PAGEALIGN(n + S.p_memsz), b"\x00")
             return {base: bytes_}
         else:
             logger.error("segment not a PT_LOAD [%08x/%0d]" % (S.p_vaddr, S.p_align))
